@@ -92,7 +92,7 @@ PROPS['C06'] = {
     'design_ref': 'DESIGN.md section 5 C06',
 }
 PROPS['C03'] = {
-    'units': ['merge', 'topo'],
+    'units': ['merge', 'topo', 'tos'],
     'title': 'exactly the parsed items reach generation (conservation kernel)',
     'technique': 'Verus contracts on ParsedData::push / is_empty / add_assign, TypeShareVisitor::collect_result, the sort block, toposort_impl and '
                  'sort_by_indices: each stage preserves exactly the items (and keeps errors)',
